@@ -93,9 +93,10 @@ impl RegGuard {
     #[verifier::external_body]
     pub fn contains_key(&self, key: &str, Tracked(em): Tracked<&mut EmAbs>) -> (r: bool)
         ensures r == keyed(old(em).reg, self.which()).dom().contains(key@), *final(em) == *old(em) { unimplemented!() }
+    // HashMap::remove: the removed handler when the key was there
     #[verifier::external_body]
-    pub fn remove(&mut self, key: &str, Tracked(em): Tracked<&mut EmAbs>)
-        ensures final(self).which() == old(self).which(),
+    pub fn remove(&mut self, key: &str, Tracked(em): Tracked<&mut EmAbs>) -> (r: Option<HandlerFn>)
+        ensures final(self).which() == old(self).which(), r is Some <==> keyed(old(em).reg, old(self).which()).dom().contains(key@),
             *final(em) == (EmAbs { reg: with_keyed(old(em).reg, old(self).which(), keyed(old(em).reg, old(self).which()).remove(key@)), ..*old(em) }) { unimplemented!() }
 }
 // ---- the tick list: ShareLock<Vec<TickHandle>>
